@@ -15,7 +15,7 @@ pub struct World {
     pub cwd_name: u8,    // 0 d0, 1 space, 2 unicode, 3 long, 4 very long (>512 bytes)
     pub rel: u8,         // 0 script in cwd, 1 in sub dir, 2 in parent dir
     pub file_name: u8,   // 0 a.sd, 1 space, 2 unicode, 3 no extension, 4 non-UTF-8 bytes
-    pub spelling: u8,    // 0 plain, 1 ./, 2 .//, 3 detour zz/../, 4 absolute, 5 symlinked dir, 6 symlink to file
+    pub spelling: u8,    // 0 plain, 1 ./, 2 .//, 3 detour zz/../, 4 absolute, 5 symlinked dir, 6 symlink to file; fault spellings (set explicitly): 7 trailing slash, 8 directory, 9 symlink loop, 10 missing, 11 longer than PATH_MAX
     pub argv0: u8,       // 0 exe path, 1 "seed", 2 "./odd name"
     pub env_kind: u8,    // 0 minimal, 1 typical, 2 junk
     pub locale: u8,      // 0 unset, 1 C, 2 en_US.UTF-8, 3 tr_TR.UTF-8, 4 nonsense
